@@ -58,8 +58,22 @@ def key_of(e, clause):
     return "mapper %s: %s ctor=%s items=%d distinct=%d" % (clause, e["ty"], e["ctor"], len(e["items"]), len(set(e["items"])))
 
 
+def build(ctx):
+    """ctx.build(), retried: the harness workspace globs c[0-9]* and a crate directory that a
+    colleague is just creating (Cargo.toml without src/main.rs) makes cargo refuse the whole
+    workspace for a moment; that is not a property of the code under test."""
+    import time
+    for attempt in range(8):
+        try:
+            return ctx.build()
+        except vlib.ToolError:
+            if attempt == 7:
+                raise
+            time.sleep(15)
+
+
 def run(ctx):
-    ctx.build()
+    build(ctx)
     t = ctx.tier
     replay_in = []
     # ---- design models
@@ -140,7 +154,7 @@ def run(ctx):
 
 def replay(ctx, path):
     d = json.load(open(path))
-    ctx.build()
+    build(ctx)
     fin = ctx.path("replay-in.ndjson")
     fout = ctx.path("replay-out.ndjson")
     vlib.write_ndjson(fin, d["events"])
